@@ -385,6 +385,15 @@ def guard_sub(prog, site):
                     r"^(nth|next|next_back|last|nth_back)\((rev\()?char_indices\(%s\)\)?.*\)@Some\.0\.0$" % S]
             if any(re.match(p2, cb2) for p2 in pats):
                 return "sub-guarded: the subtrahend is the offset of a match found by a std search in the very string whose length is the minuend"
+    # len(S) - len(T(S, ..)) where T returns a sub-slice of its receiver (trim*, strip_*): a part is not longer than the whole
+    if a["k"] in ("copy", "move") and b["k"] in ("copy", "move"):
+        ca, cb2 = op_canon(body, a), op_canon(body, b)
+        m = re.match(r"^len\((.+)\)$", ca)
+        m2 = re.match(r"^len\((trim\w*|strip_prefix|strip_suffix)\((.+)\)(?:@Some\.0)?\)$", cb2)
+        if m and m2:
+            inner = m2.group(2)
+            if inner == m.group(1) or inner.startswith(m.group(1) + ","):
+                return "sub-guarded: the subtrahend is the length of a sub-slice (%s) of the very string whose length is the minuend" % m2.group(1)
     # a = len(v) and a dominating `!v.is_empty()` with b == 1
     if b["k"] == "const" and b.get("int") == 1 and a["k"] in ("copy", "move"):
         ca = op_canon(body, a)
@@ -597,8 +606,36 @@ def _guard_token_unwrap(prog, site, depth=0):
     return "caller-guard: current token = Some established at every call site (%s)" % ", ".join(sorted(set(names)))
 
 
+def guard_index_after_ascii_prefix(prog, site):
+    """`S[n..]` with n = S.bytes().take_while(P).count() and P false for every byte >= 0x80: the n bytes in front are all ASCII, so n is
+    at most len(S) and the next byte (if any) starts a character."""
+    m = re.match(r"^str\[RangeFrom<usize>\] recv=(.+) idx=RangeFrom\{count\(take_while\(bytes\((.+)\),closure\{.*\}\)\)\}$", site.desc)
+    if not m or m.group(1) != m.group(2):
+        return None
+    body = site.body
+    from table import Table, TooComplex, run_concrete, eval_desc, vdesc, Unknown
+    for c in body.calls():
+        if (c.callee or "").split("::")[-1] != "take_while" or len(c.args) != 2 or c.args[1]["k"] not in ("copy", "move"):
+            continue
+        if op_canon(body, c.args[0]) != "bytes(%s)" % m.group(1):
+            continue
+        cb = prog.body(norm(body.locals[c.args[1]["place"]["l"]].get("closure") or ""))
+        if cb is None or cb.loops():
+            return None
+        try:
+            tb = Table(prog, cb, inline=1)
+            for v in range(0x80, 0x100):
+                res, _ = run_concrete(tb, {"arg%d" % cb.arg_count: v})
+                if bool(eval_desc(vdesc(res), {"arg%d" % cb.arg_count: v})):
+                    return None
+        except (TooComplex, Unknown):
+            return None
+        return "index-guarded: the offset counts a prefix of bytes accepted by a predicate that rejects every non-ASCII byte"
+    return None
+
+
 AUTO = {"sub": guard_sub, "unwrap": guard_token_unwrap, "expect": guard_unwrap, "bounds": guard_bounds_u8,
-        "divzero": guard_div, "remzero": guard_div}
+        "divzero": guard_div, "remzero": guard_div, "index": guard_index_after_ascii_prefix}
 
 
 def _loose(key):
